@@ -176,6 +176,7 @@ type valGen struct {
 	budget int  // remaining optional/element expansions
 	big    bool // allow one very long string
 	errcls bool // allow an ill-formed construct (error class)
+	full   bool // every optional member present, every list with one or two elements (deep, complete values)
 	dflt   *int64
 }
 
@@ -321,7 +322,12 @@ func (g *valGen) fill(v reflect.Value, p rparams, depth int) {
 			return
 		}
 		n := 0
-		if g.spend() {
+		if g.full {
+			n = 1
+			if depth < 12 && rapid.IntRange(0, 2).Draw(g.t, "two") == 0 {
+				n = 2
+			}
+		} else if g.spend() {
 			n = rapid.SampledFrom([]int{0, 1, 1, 2, 3}).Draw(g.t, "slen")
 		}
 		if n == 0 && rapid.Bool().Draw(g.t, "nilSlice") && !p.optional {
@@ -367,6 +373,13 @@ func (g *valGen) fill(v reflect.Value, p rparams, depth int) {
 				present := false
 				if k := fv.Kind(); k != reflect.Ptr && k != reflect.Slice {
 					present = true // non-nillable optional member (not in the schema)
+				} else if g.full {
+					// (members no value of which can be marshalled stay absent)
+					ft := fv.Type()
+					for ft.Kind() == reflect.Ptr {
+						ft = ft.Elem()
+					}
+					present = ft != oidType && !fp.open
 				} else if g.spend() {
 					den := 2 + depth
 					present = rapid.IntRange(0, den-1).Draw(g.t, "present") == 0
